@@ -302,26 +302,13 @@ func TestVerifC02Sweep(t *testing.T) {
 			return
 		}
 		for m, L := range lens {
-			step := 1
-			if !vlib.Thorough() {
-				step = 7 // quick: every 7th offset plus the edges below; thorough: every offset
-				complete = false
-			}
-			offs := map[int]bool{}
-			for o := 0; o < L; o += step {
-				offs[o] = true
-			}
-			for _, o := range []int{0, 1, 2, 3, 4, 5, 7, 8, 35, 36, 37, L - 1, L - 2, L - 15, L - 16, L - 17, L - 31, L - 32, L - 33, L - 48, L - 49} {
-				if o >= 0 && o < L {
-					offs[o] = true
-				}
-			}
+			// every byte offset of every message: quick with masks {0x01, 0x80} (+0xff near the edges),
+			// thorough with every single-bit mask and 0xff
 			for o := 0; o < L; o++ {
-				if !offs[o] {
-					continue
-				}
 				masks := []int{0x01, 0x80}
-				if vlib.Thorough() || o < 8 || o >= L-33 {
+				if vlib.Thorough() {
+					masks = []int{0x01, 0x02, 0x04, 0x08, 0x10, 0x20, 0x40, 0x80, 0xff}
+				} else if o < 8 || o >= L-33 {
 					masks = append(masks, 0xff)
 				}
 				for _, mk := range masks {
@@ -332,7 +319,8 @@ func TestVerifC02Sweep(t *testing.T) {
 			}
 			tstep := 1
 			if !vlib.Thorough() {
-				tstep = 13
+				tstep = 5
+				complete = false
 			}
 			for l := 0; l < L; l += tstep {
 				if !emit(c02Case{Hidden: hidden, Msg: m, Kind: 1, Len: l}) {
